@@ -735,6 +735,24 @@ func (e *c09Env) opByID(id uint64) {
 		return "ok " + c09Loc(l)
 	})
 }
+func (e *c09Env) opByIDFromPD(id uint64) {
+	e.op("byidpd", []string{fmt.Sprint(id)}, func() string {
+		l, err := e.cache.LocateRegionByIDFromPD(e.bo(), id)
+		if err != nil {
+			return c09Err(err)
+		}
+		return "ok " + c09Loc(l)
+	})
+}
+func (e *c09Env) opBLoadFrom(s []byte, count int) {
+	e.op("bloadfrom", []string{c09hx(s), fmt.Sprint(count)}, func() string {
+		end, err := e.cache.BatchLoadRegionsFromKey(e.bo(), s, count)
+		if err != nil {
+			return c09Err(err)
+		}
+		return "ok " + c09hx(end)
+	})
+}
 func (e *c09Env) opRange(s, t []byte) {
 	e.op("range", []string{c09hx(s), c09hx(t)}, func() string {
 		ls, err := e.cache.LocateKeyRange(e.bo(), s, t)
@@ -1055,6 +1073,24 @@ func (e *c09Env) senderRounds(k []byte, max int) (rounds int, served bool, store
 	}
 	return
 }
+// UpdateBucketsIfNeeded's background reload racing with OnBucketVersionNotMatch on the same region: the reload goroutine is
+// started first, the version-not-match arrives while it may still be in flight; either order is admissible
+func (e *c09Env) opBucketRace(v RegionVerID, latest, ver uint64, keys [][]byte) {
+	e.op("ubrace", []string{c09Ver(v), fmt.Sprint(latest), c09Bk(&metapb.Buckets{Version: ver, Keys: keys})}, func() string {
+		e.cache.UpdateBucketsIfNeeded(v, 0, latest)
+		if e.rng.Intn(2) == 0 {
+			time.Sleep(200 * time.Microsecond)
+		}
+		e.cache.OnBucketVersionNotMatch(&RPCContext{Region: v}, ver, keys)
+		for i := 0; i < 2000; i++ {
+			if _, busy := e.cache.inflightUpdateBuckets.Load(v.id); !busy {
+				break
+			}
+			time.Sleep(time.Millisecond)
+		}
+		return "ok"
+	})
+}
 func (e *c09Env) opCtx(v RegionVerID) *RPCContext {
 	var out *RPCContext
 	e.op("ctx", []string{c09Ver(v)}, func() string {
@@ -1176,6 +1212,11 @@ func (e *c09Env) lookup() {
 		e.opListIDs(s, t)
 	case x < 89:
 		e.opLoadRange(e.keyRange())
+	case x < 91:
+		rs := e.regions()
+		e.opByIDFromPD(rs[e.rng.Intn(len(rs))].meta.Id)
+	case x < 92:
+		e.opBLoadFrom(e.key(), 1+e.rng.Intn(4))
 	case x < 94:
 		s, t := e.keyRange()
 		e.opBLoad(s, t, 1+e.rng.Intn(4))
@@ -1210,6 +1251,8 @@ func (e *c09Env) cacheOp() {
 		e.opClear()
 	case x < 77:
 		e.opBVNM(r.VerID(), uint64(e.rng.Intn(int(e.bver)+3)), e.sortedKeys(1+e.rng.Intn(3)))
+	case x < 78:
+		e.opBucketRace(r.VerID(), uint64(e.rng.Intn(int(e.bver)+3)), uint64(e.rng.Intn(int(e.bver)+3)), e.sortedKeys(1+e.rng.Intn(3)))
 	case x < 80:
 		e.opUBuckets(r.VerID(), uint64(e.rng.Intn(int(e.bver)+2)), uint64(e.rng.Intn(int(e.bver)+3)))
 	case x < 84:
@@ -1255,6 +1298,12 @@ func (e *c09Env) quiesce() {
 		}
 	}
 	e.pdw.staleP = 0
+	// the store health-check loop (one tick per second in the background) has noticed that every store answers again
+	for _, sid := range e.stores {
+		if st, ok := e.cache.stores.get(sid); ok && st.getResolveState() != tombstone {
+			atomic.StoreUint32(&st.livenessState, uint32(reachable))
+		}
+	}
 	e.topoDone("quiesce")
 }
 // stuck: situations in which a request cannot be served yet — the leader's store is down, the region has no leader,
